@@ -217,6 +217,27 @@ def do_ref(args):
         cfg["endpoint"][0]["rate_limits"] = ["rl", "missing-limit"]
     elif k == "dup-cert":
         cfg["certificate"].append(dict(cfg["certificate"][0], identifiers=[{"dns": "other.example.org", "challenge": "http-01"}]))
+    dup = dict(cfg["certificate"][0], identifiers=[{"dns": "other.example.org", "challenge": "http-01"}])
+    if k == "dup-cert-include":
+        # the second certificate of that id (same name, default = explicit key type) is declared by an included file
+        dup.pop("key_type")
+        cfg["certificate"][0]["key_type"] = "rsa2048"
+        cfg["include"] = ["inc/more.toml"]
+        os.makedirs(os.path.join(d, "inc"))
+        open(os.path.join(d, "inc", "more.toml"), "w").write(toml_dumps({"certificate": [dup]}))
+    elif k == "dup-cert-glob":
+        # ... or by two sibling files matched by one pattern
+        first = cfg["certificate"].pop(0)
+        cfg["include"] = ["conf.d/*.toml"]
+        os.makedirs(os.path.join(d, "conf.d"))
+        open(os.path.join(d, "conf.d", "10-a.toml"), "w").write(toml_dumps({"certificate": [first]}))
+        open(os.path.join(d, "conf.d", "20-b.toml"), "w").write(toml_dumps({"certificate": [dup]}))
+    elif k == "ok-split":
+        # every section in a file of its own: references resolve across files
+        os.makedirs(os.path.join(d, "parts"))
+        cfg["include"] = ["parts/*.toml"]
+        for n, sec in enumerate(("endpoint", "rate-limit", "hook", "group", "account", "certificate")):
+            open(os.path.join(d, "parts", "%02d-%s.toml" % (n, sec)), "w").write(toml_dumps({sec: cfg.pop(sec)}))
     conf = os.path.join(d, "main.toml")
     open(conf, "w").write(toml_dumps(cfg))
     r = probe("config-dump", {"config": conf})
